@@ -10,6 +10,7 @@ import (
 	"fmt"
 	"math"
 	"strings"
+	"sync"
 )
 
 const tryLabel = "try"
@@ -63,8 +64,9 @@ func Deferred[V any](fn func() *Generator[V]) *Generator[V] {
 }
 
 type deferredGen[V any] struct {
-	g  *Generator[V]
-	fn func() *Generator[V]
+	g    *Generator[V]
+	fn   func() *Generator[V]
+	once sync.Once
 }
 
 func (g *deferredGen[V]) String() string {
@@ -73,9 +75,7 @@ func (g *deferredGen[V]) String() string {
 }
 
 func (g *deferredGen[V]) value(t *T) V {
-	if g.g == nil {
-		g.g = g.fn()
-	}
+	g.once.Do(func() { g.g = g.fn() })
 	return g.g.value(t)
 }
 
